@@ -1291,6 +1291,14 @@ func (m *Memberlist) deadNode(d *dead) {
 			return // Do not mark ourself dead
 		}
 
+		// If we are leaving, only our own departure message retires us: an
+		// accusation by someone else that arrives while Leave is in progress
+		// must not mark us as failed, nor complete Leave's wait in place of
+		// the leave message we are about to send.
+		if d.Node != d.From {
+			return
+		}
+
 		// If we are leaving, we broadcast and wait
 		m.encodeBroadcastNotify(d.Node, deadMsg, d, m.leaveBroadcast)
 	} else {
